@@ -414,7 +414,7 @@ func (brr *BalanceRR) simpleBalance() (*backend.BfeBackend, error) {
 				backend.Name, avail, backendRR.weight)
 		}
 
-		if avail && backendRR.weight != 0 {
+		if avail && backendRR.weight > 0 {
 			allBackendDown = false
 		}
 
